@@ -89,6 +89,7 @@ class Prop(object):
                 for secret in (False, True):
                     u.append(('shapes', {'nuid': nuid, 'nsub': nsub, 'secret': secret, 'reduced': tier == 'quick'}))
         u.append(('concat', {}))
+        u.append(('foreign-component', {}))
         u.append(('gpg', {}))
         d = 2 if tier == 'quick' else 3
         for op in H.OPS:
@@ -98,7 +99,7 @@ class Prop(object):
 
     def run_case(self, check, case):
         R.set_s2k_count(0)
-        return getattr(self, 'c_' + check)(case)
+        return getattr(self, 'c_' + check.replace('-', '_'))(case)
 
     # ---- reference key writer ---------------------------------------------------------------------------------------
     def write_key(self, shape):
@@ -325,6 +326,68 @@ class Prop(object):
                 for kind, detail in probs[:2]:
                     r.viol('concat', {'kind': kind}, case, 'keys %r concatenated: %s' % (list(order), detail))
         r.samples.append({'concat': [s['prim'] for s in shapes]})
+        return r
+
+    def c_foreign_component(self, case):
+        """A key that carries a component this implementation has no parser for (a subkey of a later key version, a packet with a private tag), with the
+        signatures that belong to it: whatever PGPy does with that component, the signatures of the components it does understand stay where they were
+        - none is lost, none gains a neighbour's signature."""
+        import pgpy
+        r = Res()
+        prim = K.raw('ed25519a', K.T0)
+        pbody = rkeys.public_body(prim)
+        for nsub in (1, 2):
+            shape = dict(nuid=2, nsub=nsub, secret=False, uat=False, nself=1, third='true', revoke_uid=False, extras=('direct',), same_time=False, trust=False, prim='ed25519a')
+            blob, known = self.write_key(shape)
+            pk = wire.read_packets(blob)
+            # a signature by the primary that belongs to the foreign component (it verifies over nothing PGPy knows)
+            fsig = wire.packet(2, rsig.make(prim, 0x18, 8, rsig.sp_created(K.T0 + 999) + rsig.sp_issuer_fpr(rkeys.fingerprint(prim)) + wire.subpacket(27, b'\x0c'),
+                                            rsig.sp_issuer(rkeys.keyid(prim)), {'key': pbody, 'subkey': b'\x05' + bytes(40)}))
+            foreign = {'v5-subkey': wire.packet(14, b'\x05' + K.T0.to_bytes(4, 'big') + bytes([22]) + bytes(range(40))) + fsig,
+                       'v5-subkey-two-sigs': wire.packet(14, b'\x05' + K.T0.to_bytes(4, 'big') + bytes([22]) + bytes(range(40))) + fsig + fsig,
+                       'private-tag': wire.packet(60, b'experimental component') + fsig}
+            sub_starts = [i for i, p in enumerate(pk) if p['tag'] == 14]
+            positions = {'end': len(pk), 'before-first-subkey': sub_starts[0]}
+            if nsub == 2:
+                positions['between-subkeys'] = sub_starts[1]
+            want = comp_view(H.key_view(blob), True)
+            for fname, fgroup in foreign.items():
+                for pname, pos in positions.items():
+                    key_id = '%d/%s/%s' % (nsub, fname, pname)
+                    if case.get('only') and key_id != case['only']:
+                        continue
+                    r.states += 1
+                    r.transitions += 2
+                    data = b''.join(p['raw'] for p in pk[:pos]) + fgroup + b''.join(p['raw'] for p in pk[pos:])
+                    probs = []
+                    try:
+                        k = pgpy.PGPKey.from_blob(data)[0]
+                        out = bytes(k)
+                        # the export with any foreign packets PGPy may have kept taken out again
+                        # (= the foreign packet and the signatures that directly follow it; the same signature after a KNOWN component stays in view)
+                        kept, in_foreign = b'', False
+                        for p in wire.read_packets(out):
+                            if p['tag'] == 60 or (p['tag'] == 14 and p['body'][:1] == b'\x05'):
+                                in_foreign = True
+                            elif p['tag'] != 2:
+                                in_foreign = False
+                            if not in_foreign:
+                                kept += p['raw']
+                        have = comp_view(H.key_view(kept), False)
+                        if have != want:
+                            what = 'identities' if have['ids'] != want['ids'] else 'subkeys' if have['subs'] != want['subs'] else 'direct signatures'
+                            probs.append('the %s of the known components differ after import / export' % what)
+                        sv = k.verify(k)
+                        bad = [hex(x.signature.type) for x in sv.bad_signatures if bytes(x.signature) != fsig]
+                        if bad:
+                            probs.append('signatures of known components no longer verify: %r' % (bad,))
+                    except Exception as e:
+                        probs.append('raises %r' % (e,))
+                    r.outcomes['foreign-component:' + ('ok' if not probs else 'violation')] += 1
+                    if probs:
+                        r.viol('foreign-component', {'kind': 'foreign-component', 'foreign': fname, 'where': pname}, dict(case, only=key_id),
+                               'key with %d subkeys and a %s %s: %s' % (nsub, fname, pname, '; '.join(probs[:2])))
+        r.samples.append({'foreign_components': ['v5-subkey', 'private-tag'], 'positions': ['end', 'before-first-subkey', 'between-subkeys']})
         return r
 
     def c_bfs(self, case):
